@@ -327,6 +327,9 @@ func (t *FnTrans) call(x *ssa.Call, c *ssa.CallCommon, st *HeapState, reach stri
 func (t *FnTrans) unknownCall(x *ssa.Call, name string, st *HeapState) {
 	t.unknownCalls[name]++
 	t.frameCheck("unknown-call:"+name, x.Pos(), t.reach[x.Block()])
+	if t.allowedMods != nil {
+		t.addObl("frame", "unknown-call-in-function-with-modifies:"+name, t.reach[x.Block()], Formula{Raw: "false"}, x.Pos(), "call without a contract inside a function whose frame is declared")
+	}
 	t.replaceState(st, t.havocAllKeepGhost(st))
 	t.setVal(x, t.havocVal(x.Type(), "unk"))
 }
@@ -705,6 +708,17 @@ func (t *FnTrans) contractCall(x *ssa.Call, callee *ssa.Function, con *Contract,
 	// frame
 	if !con.Pure {
 		t.frameCheck("call:"+name, x.Pos(), reach)
+		if t.allowedMods != nil {
+			if comps, ok := t.modifiesComps(callee, con); ok && len(con.Modifies) > 0 {
+				for _, c := range comps {
+					if !t.allowedMods[c] {
+						t.addObl("frame", "callee-modifies-outside:"+c, reach, Formula{Raw: "false"}, x.Pos(), "callee may write a component that is not in this function's modifies list")
+					}
+				}
+			} else {
+				t.addObl("frame", "callee-without-frame:"+name, reach, Formula{Raw: "false"}, x.Pos(), "callee has no resolvable frame")
+			}
+		}
 		if len(con.Modifies) == 0 {
 			t.replaceState(st, t.havocAll(st))
 			t.note("call to %s: contract has no frame (pure/modifies): whole heap havocked", name)
